@@ -53,3 +53,13 @@ BUILT['C14'] = {
     'level': 'Runtime monitoring: every transform and stacks of up to 3 with valid and invalid arguments over generated values, hosted as map keys, $value and list entries; results must equal independent implementations folded left to right, format texts must decode (independent parsers) to the value and be byte-identical to bkl\'s own output of that format, flags must equal [tolist:=, prefix:--], malformed arguments/wrong input kinds must fail, and $decode of the produced text must give the value back as seen through json, yaml and toml output. Holds for the executions produced only.',
     'note': 'Trusted: Python stdlib codecs, PyYAML (core-schema loader), tomllib, the reference list-transform functions in harness/bv/props/c14.py. Text form of floats/non-scalars in text transforms and toml of non-maps are not judged.',
 }
+BUILT['C15'] = {
+    'technique': 'process-boundary metamorphic monitor: real bkld then real bkl on generated (base, edited target) pairs in mixed formats',
+    'level': 'Runtime monitoring: for every generated pair the real bkld binary writes the layer, the layer is stored as base.diff.<ext> and the real bkl binary must accept it and evaluate to exactly the target; identical pairs must give an empty/neutral layer. Edit scripts cover key add/remove/change, list append/remove/reorder/duplicate/insert/partial-match removals, kind changes in all directions and retyped scalars. Holds for the executions produced only.',
+    'note': 'Trusted: own serializers (validated against independent decoders), python json decoding of bkl output. Minimality/shape of the diff is not judged.',
+}
+BUILT['C16'] = {
+    'technique': 'process-boundary reference monitor for bkli (independent multiset intersection) + idempotence + migrate round trip through real bkld and bkl',
+    'level': 'Runtime monitoring: the real bkli output for generated sets of 2-4 related/unrelated trees (all generated argument orders and format mixes) must equal an independent maximal-common-base computation (lists as multisets), bkli x x must give x, and for each input the real bkld from the bkli result followed by the real bkl must reproduce the input exactly. Holds for the executions produced only.',
+    'note': 'Trusted: the independent intersection in harness/bv/props/c16.py, own serializers, independent decoders. Order of entries inside intersected lists is not judged.',
+}
